@@ -14,7 +14,9 @@ CHECKS = {
             "property-based testing (proptest over choice tapes): encode/decode round trip, 3 decoder front-ends",
             "Generated valid packets of all 14 v3 / 15 v5 types (every optional field and property an independent choice, every code "
             "variant, boundary lengths up to 4-byte headers) are encoded and decoded by the blocking, async and poll decoders; the "
-            "oracle is the inverse (equality with the original, exact total, body bytes unchanged). Exploration is the right level: "
+            "oracle is the inverse (equality with the original, exact total, body bytes unchanged). Boundary-size constructions put "
+            "the remaining length and every v5 property section (also the will's) at -2..+5 around 128 / 16,384 / 2,097,152, go beyond "
+            "16 MiB and up to 268,435,455 (thorough), and include multi-byte payloads flagged as UTF-8. Exploration is the right level: "
             "the space is unbounded and the oracle is exact, so a counterexample search with shrinking is what can be built.",
             "No counterexample among the generated cases; absence outside them is not established. " + TRUST,
             "DESIGN.md §7 C01"),
@@ -51,7 +53,8 @@ CHECKS = {
             "The poll decoder is driven by hand over scripted transports: for a fixed list of short streams of every packet type "
             "(well-formed, malformed, truncated, with trailing bytes) every composition of the stream into reads is run with and "
             "without Pending before every read and with the future dropped and re-created from the caller-held state at every "
-            "Pending; longer generated streams (1-4 byte headers) get random schedules. Each run must equal the uninterrupted run, "
+            "Pending; longer generated streams (1-4 byte headers) get random schedules, and PUBLISH streams with 2-4 byte headers "
+            "every split of their first 8 bytes. Each run must equal the uninterrupted run, "
             "return Pending only when the transport did, never request more than the frame still needs, and consume what it reports.",
             "Exhaustive for the listed streams up to 15 (quick) / 18 (thorough) bytes; random beyond. The frame end used by the capacity check comes from the harness' own header parse. " + TRUST,
             "DESIGN.md §7 C05"),
@@ -82,7 +85,8 @@ CHECKS = {
             "property-based testing (proptest over choice tapes): differential between encoder entry points under scripted sinks",
             "For generated valid packets the blocking encoder (twice), the async encoder into a Vec, an exactly sized Cursor, a "
             "one-byte-per-write sink and tape-scripted sinks (Accept(k)/Pending), and control byte ++ var-int ++ streamed body are "
-            "compared byte for byte; the sinks are call-bounded so a spin is a deterministic failure.",
+            "compared byte for byte; the sinks are call-bounded so a spin is a deterministic failure. The boundary-size "
+            "constructions of C01 (header-width boundaries, 2 MiB property sections, > 16 MiB payloads) go through every entry point too.",
             "No counterexample among the generated (packet, sink script) pairs. " + TRUST,
             "DESIGN.md §7 C09"),
     "C10": ("exploration",
@@ -113,22 +117,26 @@ CHECKS = {
             "property-based testing (proptest over choice tapes) of cross-family CONNECTs + exhaustive (name, level) grid",
             "Generated valid CONNECTs of each family are presented to the other family's three decoders: exact UnexpectedProtocol "
             "error, byte count consumed by the async decoder, and continuation through decode_with_protocol compared with the native "
-            "decode. All 256 levels x 19 protocol names are checked against both families, all front-ends and Protocol::new.",
+            "decode; large CONNECTs (property sections around every width boundary and around the other family's largest possible "
+            "CONNECT, v3 CONNECTs with up to five 65,535-byte fields) are included. All 256 levels x 19 protocol names are checked "
+            "against both families, all front-ends and Protocol::new.",
             "No counterexample among the generated CONNECTs; the grid is enumerated completely. " + TRUST,
             "DESIGN.md §7 C13"),
     "C14": ("fault_enumeration",
             "fault injection enumerated over byte positions and error kinds on generated packets (proptest-driven), scripted transports",
             "For generated valid packets a read error of each of five io::ErrorKinds is injected at every byte position (and EOF at "
             "every position) into the async and poll decoders under one-shot and chunked delivery; a write error or zero-length "
-            "write at every position into the async encoder and the streaming body encoders. The oracle is the injected kind "
-            "itself, the prefix property of what the sink received, and a conversion table for the error types.",
+            "write at every position into the async encoder and the streaming body encoders; boundary-size packets (16 KiB - 2 MiB "
+            "payloads and property sections) get faults at field boundaries and at positions spread over the whole encoding. The "
+            "oracle is the injected kind itself, the prefix property of what the sink received, and a conversion table for the error types.",
             "Positions are exhaustive for encodings up to 260 bytes and sampled (field boundaries + random) beyond; Interrupted / WouldBlock are excluded by convention. " + TRUST,
             "DESIGN.md §7 C14"),
     "C15": ("exploration",
             "exhaustive enumeration of the var-int domain (thorough: all 2^28 values) against a closed-form arithmetic model",
             "Every value of 0..=268,435,455 (thorough; a dense-boundary + stride-97 sample in quick) is pushed through the library's "
             "var-int writer, size function, both readers, total_len/header_len/remaining_len and, for boundary and sampled values, "
-            "the poll decoder's header state machine, and compared with a closed-form model; the first invalid values and all 9,330 "
+            "the poll decoder's header state machine (header delivered in one read, byte by byte with Pending, and with the future "
+            "re-created at every Pending) and partial-write sinks, and compared with a closed-form model; the first invalid values and all 9,330 "
             "continuation-bit patterns of up to five bytes are checked for rejection / EOF classification. In the thorough tier the "
             "finite domain is enumerated completely (evidence: exhaustive = true).",
             "The arithmetic model (base-128 little endian, width thresholds 2^7, 2^14, 2^21, 2^28) is trusted. Quick tier is a sample. " + TRUST,
@@ -136,7 +144,8 @@ CHECKS = {
     "C16": ("exploration",
             "bounded-exhaustive enumeration of strings against a split-based reference predicate (MQTT 4.7/4.8)",
             "All strings up to a length bound over an 8-character alphabet covering every class the validator distinguishes, alone "
-            "and behind 11 prefix shapes, and structured strings around 65,535 bytes, are given to TopicFilter::is_invalid, the "
+            "and behind 11 prefix shapes, 0.9 M medium-length strings with special characters at every position of runs of up to 70 "
+            "ordinary (ASCII and multi-byte) characters, structured and random strings around 65,535 bytes, are given to TopicFilter::is_invalid, the "
             "constructor and the v3/v5 SUBSCRIBE/UNSUBSCRIBE decoders; all must agree with a predicate written from the "
             "specification by splitting on '/'. The stated bounded space is enumerated completely.",
             "Exhaustive only inside the bounded space (length <= 6 quick, <= 8 / 7 thorough); longer strings are sampled. " + TRUST,
@@ -151,7 +160,8 @@ CHECKS = {
     "C18": ("exploration",
             "bounded-exhaustive enumeration of strings against the three-condition rule; six packet paths",
             "All strings up to a length bound over a 9-character alphabet, alone and behind '$share/', '$SYS/' and near-miss "
-            "prefixes, and strings around 65,535 bytes: TopicName::is_invalid, the constructor (read-back, is_shared, is_sys) and "
+            "prefixes, 0.9 M medium-length strings with a forbidden character at every position of runs of up to 70 characters, and "
+            "structured and random strings around 65,535 bytes: TopicName::is_invalid, the constructor (read-back, is_shared, is_sys) and "
             "the PUBLISH / will / response-topic decoders of both families must agree with: <= 65,535 bytes and no '+', '#', U+0000.",
             "Exhaustive only inside the bounded space (length <= 6 quick, <= 7 thorough). " + TRUST,
             "DESIGN.md §7 C18"),
